@@ -94,7 +94,7 @@ func elements(o Op, tpl bool) []entities.InfoElementWithValue {
 	}
 	if o.FixedStr > 0 && !tpl {
 		p := (o.FixedStr - 1) % (len(els) + 1)
-		fs := glue.Element(glue.IE(glue.FixedString), ref.TString, ref.Value{B: []byte("sixteen-byte-str")[:8+o.FixedStr%9]})
+		fs := glue.Element(glue.IE(glue.FixedString), ref.TString, ref.Value{B: fixedStrValue(o.FixedStr)})
 		els = append(els[:p:p], append([]entities.InfoElementWithValue{fs}, els[p:]...)...)
 	}
 	if o.Wrap > 0 && len(els) > 0 {
@@ -113,8 +113,17 @@ func elements(o Op, tpl bool) []entities.InfoElementWithValue {
 	return els
 }
 
+// fixedStrValue: the value of the fixed-length (16 bytes) string element of an add: exactly 16 bytes.
+func fixedStrValue(k int) []byte {
+	return []byte(fmt.Sprintf("fixed-string-%03d", k%1000))
+}
+
 func badElement(kind string) entities.InfoElementWithValue {
 	switch kind {
+	case "fixedstr_short":
+		return glue.Element(glue.IE(glue.FixedString), ref.TString, ref.Value{B: []byte("too short")})
+	case "fixedstr_long":
+		return glue.Element(glue.IE(glue.FixedString), ref.TString, ref.Value{B: []byte("seventeen bytes!!")})
 	case "v6_in_ipv4":
 		f := glue.UserField(ref.TIPv4)
 		return glue.Element(glue.IE(f), f.Type, ref.Value{B: []byte{0x20, 1, 0xd, 0xb8, 0, 0, 0, 0, 0, 0, 0, 0, 0, 0, 0, 1}})
@@ -228,6 +237,16 @@ func play(c Case, forcePath int, st *Stats) ([]byte, *ev.Failure) {
 				// stay that way, and be the same through every add path and in a fresh set
 				recs := set.GetRecords()
 				got := append([]byte(nil), recs[len(recs)-1].GetBuffer()...)
+				if o.Foreign == 0 {
+					// a string element declared with a fixed length goes out as exactly that many bytes,
+					// without a length prefix, like a fixed-length octet array
+					p := (o.FixedStr - 1) % (len(o.Fields) + 1)
+					fields := append(append(append([]ref.Field(nil), o.Fields[:p]...), glue.FixedString), o.Fields[p:]...)
+					vals := append(append(append([]ref.Value(nil), o.Vals[:p]...), ref.Value{B: fixedStrValue(o.FixedStr)}), o.Vals[p:]...)
+					if want := ref.EncodeDataRecord(nil, fields, vals); !bytes.Equal(got, want) {
+						return nil, ev.Failf("op %d add (path %d): a record with a string element of fixed length 16 at position %d is not encoded at the template's widths (%d bytes, reference %d, first difference at %d)", i, path, p, len(got), len(want), firstDiff(got, want))
+					}
+				}
 				if o.Foreign > 0 && o.FixedStr == 0 {
 					// the element without encoder reports 8 bytes; whatever they hold, every other field
 					// sits where the reported lengths put it
@@ -422,7 +441,7 @@ func genCase(t *rapid.T) Case {
 					o.AddID = rapid.SampledFrom([]uint16{256, 300, 999, 65535, 2, 3}).Draw(t, "add_id_v")
 				}
 				if rapid.IntRange(0, 7).Draw(t, "bad") == 0 {
-					o.Bad = rapid.SampledFrom([]string{"v6_in_ipv4", "mac5", "fixed_short"}).Draw(t, "badkind")
+					o.Bad = rapid.SampledFrom([]string{"v6_in_ipv4", "mac5", "fixed_short", "fixedstr_short", "fixedstr_long"}).Draw(t, "badkind")
 					o.BadPos = rapid.IntRange(0, 12).Draw(t, "badpos")
 				}
 			}
